@@ -1,7 +1,8 @@
 """C16 With transfer-fee tokens the pool still receives and pays the curve amounts.
 
 Decided: the wiring of swap_with_transfer_fee_extension per (exact_in, a_to_b): which mint's
-fee is removed / added around the curve swap and which amount the user is charged; the
+fee is removed / added around the curve swap and which amount the user is charged (the
+caller's amount exactly when the swap used the whole fee-excluded input); the
 reposition transfer-info helper (fee-included when the user pays, raw when the pool pays,
 fee contribution added to the max check); the structure of the two fee helpers (zero
 short-cut, 100% case uses maximum_fee, inverse fee, checked add, re-verification) and
@@ -122,6 +123,32 @@ def R1_swap_wiring(run):
                         ok = True
     run.check("R1", "fulfilled-test", ok, "exact-in: charging the caller's `amount` is not conditioned on swap input == fee-excluded amount", loc=fn.loc(),
               detail="swap input == excluded(amount) ? amount : included(swap input)")
+    # ... and on the right side of it: amount when equal, included(swap input) when the swap stopped short
+    for ab in (True, False):
+        cx = {"amount_specified_is_input": True, "a_to_b": ab}
+        in_f = "amount_a" if ab else "amount_b"
+        eqs = []
+        for at in A.atoms(fn, cx):
+            c = at.cond()
+            if c and c[0] in ("Eq", "Ne"):
+                fx, fy = _fee_call(c[1], "excluded"), _fee_call(c[2], "excluded")
+                if (fx and is_param(fx[1], "amount")) or (fy and is_param(fy[1], "amount")):
+                    eqs.append(at)
+        res = {}
+        for equal in (True, False):
+            pva = prov_assuming(fn, [(at, (at.cond()[0] == "Eq") == equal) for at in eqs], cx)
+            kinds = set()
+            for bi, bb in enumerate(fn.blocks):
+                if bb["t"]["k"] == "ret" and pva.flow.state_in[bi] is not None:
+                    for l in leaves(pva.local(0, bi, len(bb["s"]))):
+                        for s_ in subterms(l):
+                            if s_[0] == "agg" and s_[1].endswith("PostSwapUpdate"):
+                                for x in leaves(dict(s_[3])[in_f]):
+                                    kinds.add("amount" if is_param(x, "amount") else ("included" if _fee_call(x, "included") else "?"))
+            res[equal] = kinds
+        run.check("R1", "fulfilled-sides[a_to_b=%d]" % ab, bool(eqs) and res == {True: {"amount"}, False: {"included"}},
+                  "exact-in a_to_b=%s: swap input == excluded(amount) charges %s, otherwise %s; expected `amount` / included(swap input)" % (ab, sorted(res.get(True, [])), sorted(res.get(False, []))),
+                  loc=fn.loc(), detail="fully used => amount; partial => included(input mint, swap input)")
 
 
 def R3_reposition_info(run):
